@@ -46,6 +46,7 @@ fn main() {
         "flags-byte" => guarded(move || status::flags_byte(&hex(&arg))),
         "authdata-decode" => guarded(move || status::authdata_decode(&arg)),
         "authdata-built" => guarded(move || status::authdata_built(&arg)),
+        "passkey-debug" => guarded(move || status::passkey_debug(&arg)),
         "cbor-bytes" => guarded(move || cbor::bytes(&hex(&arg))),
         "cose-der" => guarded(move || cbor::cose_der(&arg)),
         "cbor-get-info-response" => guarded(move || cbor::get_info_response(&hex(&arg))),
